@@ -1339,11 +1339,22 @@ func checkHelpAfterWidening(c *Ctx, n int, prop string) {
 				{Kind: "addgroup", Target: 2, Short: "Late", Struct: &StructDesc{Fields: []FieldDesc{
 					{Name: "Depth", Exported: true, Kind: "v", Ty: "str", Tag: `long:"depth" description:"MARKD how deep"`}}}}}
 		}
-		cs.Ops = []Op{{Kind: "parse", Args: append(append([]string{}, pre...), "--help")}}
+		// the help is asked for through ParseArgs (--help) — or written directly (WriteHelp) both times, with no
+		// call between the change and the second text
+		direct := r.Intn(3) == 0
+		if direct {
+			cs.Ops = []Op{{Kind: "parse", Args: pre}, {Kind: "help", Cols: 80}}
+		} else {
+			cs.Ops = []Op{{Kind: "parse", Args: append(append([]string{}, pre...), "--help")}}
+		}
 		for k := range mut {
 			cs.Ops = append(cs.Ops, Op{Kind: "build", B: &mut[k]})
 		}
-		cs.Ops = append(cs.Ops, Op{Kind: "parse", Args: append(append([]string{}, pre...), "--help")})
+		if direct {
+			cs.Ops = append(cs.Ops, Op{Kind: "help", Cols: 80})
+		} else {
+			cs.Ops = append(cs.Ops, Op{Kind: "parse", Args: append(append([]string{}, pre...), "--help")})
+		}
 		cs.Description = describeOps(cs)
 		c.RunCases([]*Case{cs}, func(cr *CaseResult) {
 			c.classifyCase(cr)
@@ -1354,6 +1365,20 @@ func checkHelpAfterWidening(c *Ctx, n int, prop string) {
 			var obs parseObs
 			for _, o := range parseBlocks(cr) {
 				obs = o
+			}
+			if direct {
+				// (the text of the last WriteHelp; a crash is reported by the panic oracle of every stage)
+				text := lastBlock(cr.Impl, "HELP x")
+				pan := ""
+				for _, l := range cr.Impl {
+					if strings.HasPrefix(l, "PANIC") {
+						pan = decodeLine(l)
+					}
+				}
+				obs = parseObs{errKind: "flags", errType: int(flags.ErrHelp), errMsg: text, panic: pan}
+				if text == "" && pan == "" {
+					obs.panic = "no help text"
+				}
 			}
 			// every marked description starts in one column
 			cols := map[int]bool{}
